@@ -287,6 +287,12 @@ var shapeNames = []string{"Unary", "ClientStream", "ServerStream", "Bidi"}
 func scenario(id string, seed uint64) runner.Result {
 	r := &payload.SplitMix{S: seed}
 	cfg := prog.GenConfig(r, false)
+	if payload.Hash(seed, 0xC10F)%4 == 0 {
+		// the server's streams flush by hand (here: never, the handlers do not flush): the responses a
+		// handler sent before it failed sit in the writer when the error goes out and must precede it
+		cfg.Server.Stream.ManualFlush = true
+		cfg.Desc += " server-manual-flush"
+	}
 	mux := drpcmux.New()
 	p := &plan{}
 	if err := mux.Register(&srv{p: p}, desc{}); err != nil {
@@ -495,6 +501,57 @@ func clipS(s string) string {
 	return s
 }
 
+// sharedSentinel: the application keeps one coded error value and returns it from several calls, once
+// re-coded with WithCode for a special case. Each call must carry exactly the code of the error its own
+// handler returned: re-coding must not change what the shared value means to later calls.
+func sharedSentinel(id string, seed uint64) runner.Result {
+	r := &payload.SplitMix{S: seed}
+	cfg := prog.GenConfig(r, false)
+	mux := drpcmux.New()
+	p := &plan{}
+	if err := mux.Register(&srv{p: p}, desc{}); err != nil {
+		return runner.Violation(id, "register", "Register failed: "+err.Error())
+	}
+	rg := rig.New(rig.Config{Net: cfg.Net, Client: cfg.Client, Server: cfg.Server}, mux)
+	defer rg.Teardown()
+	base := uint64(3 + r.Intn(100))
+	sentinel := drpcerr.WithCode(errors.New("quota exceeded"), base)
+	type step struct {
+		err  error
+		code uint64
+		what string
+	}
+	other := base + 1 + uint64(r.Intn(50))
+	steps := []step{
+		{sentinel, base, "the sentinel"},
+		{drpcerr.WithCode(sentinel, other), other, "the sentinel re-coded"},
+		{sentinel, base, "the sentinel again"},
+		{fmt.Errorf("wrapped: %w", sentinel), base, "the sentinel wrapped"},
+		{drpcerr.WithCode(fmt.Errorf("wrapped: %w", sentinel), other+1), other + 1, "the wrapped sentinel re-coded"},
+		{sentinel, base, "the sentinel once more"},
+	}
+	var fails []string
+	var descs []string
+	for i, stp := range steps {
+		p.fail, p.k = stp.err, 0
+		var out Msg
+		err := rg.Conn.Invoke(context.Background(), "/svc/Unary", enc{}, &Msg{B: []byte("x")}, &out)
+		descs = append(descs, fmt.Sprintf("call%d returns %s (code %d)", i+1, stp.what, stp.code))
+		if err == nil {
+			fails = append(fails, fmt.Sprintf("call %d: the handler failed but the call succeeded", i+1))
+		} else if got := drpcerr.Code(err); got != stp.code {
+			fails = append(fails, fmt.Sprintf("call %d (%s): the client got code %d, the handler's error carried %d", i+1, stp.what, got, stp.code))
+		}
+	}
+	desc := cfg.Desc + " | shared-sentinel: " + strings.Join(descs, "; ")
+	if len(fails) > 0 {
+		return runner.Violation(id, "error-identity:code-of-a-shared-error-value-changed", desc+"\n"+strings.Join(fails, "\n"))
+	}
+	res := runner.Hold(id, desc, true)
+	res.Events = int64(len(steps))
+	return res
+}
+
 // lateReceive: the client (manual flushing on or off) half-closes, the handler fails, and the client
 // asks for the outcome only later: when the stream has finished and the next call on the connection
 // has already been started (its invoke sits unflushed in the shared writer). The first call's receive
@@ -700,6 +757,10 @@ func gen(tier string, seed uint64) []runner.Scenario {
 		i := i
 		id := fmt.Sprintf("calls/%d", i)
 		out = append(out, runner.Scenario{ID: id, Run: func() runner.Result { return scenario(id, payload.Hash(seed, 0xC10, uint64(i))) }})
+		if i%25 == 0 {
+			id4 := fmt.Sprintf("shared-sentinel/%d", i)
+			out = append(out, runner.Scenario{ID: id4, Run: func() runner.Result { return sharedSentinel(id4, payload.Hash(seed, 0xC10C, uint64(i))) }})
+		}
 		if i%5 == 0 {
 			id3 := fmt.Sprintf("early-return/%d", i)
 			out = append(out, runner.Scenario{ID: id3, Run: func() runner.Result { return earlyReturn(id3, payload.Hash(seed, 0xC10B, uint64(i))) }})
